@@ -118,8 +118,7 @@ class Method(Variable):  # i.e. TypeBound procedure
                 link_obj = find_in_scope(self.parent.parent, self.link_name, obj_tree)
             else:
                 link_obj = find_in_scope(self.parent, self.link_name, obj_tree)
-            if link_obj is not None:
-                self.link_obj = link_obj
+            if link_obj is not None and self.set_link_obj(link_obj):
                 # Only procedures have an argument list to look PASS(arg) up in
                 args_snip = getattr(link_obj, "args_snip", None)
                 if self.pass_name is not None and args_snip is not None:
